@@ -206,6 +206,31 @@ func init() {
 			o.Count("iterx:" + kind)
 			o.Nontrivial(line)
 		}
+		// (3) the clock through the UCI driver: whatever else the go command carries (increments, moves to go), an open-ended
+		// search is ended before the time left on the mover's clock runs out - the answer must be there when the flag would fall
+		// (the wait is the time left; on an oversubscribed machine it is stretched, the engine's own timer is not)
+		cl := 3
+		if thorough {
+			cl = 30
+		}
+		for i := 0; i < cl; i++ {
+			left := []int{1500, 2500, 4000}[r.Intn(3)]
+			other := []int{left, 100, 600000}[r.Intn(3)]
+			g := fmt.Sprintf("go wtime %d btime %d", left, other)
+			switch i % 3 {
+			case 0: // a large increment is not time on the clock
+				inc := []int{60000, 600000, 3600000}[r.Intn(3)]
+				g += fmt.Sprintf(" winc %d binc %d", inc, inc)
+			case 1:
+				g += fmt.Sprintf(" movestogo %d", []int{1, 2, 30}[r.Intn(3)])
+			default:
+				g += fmt.Sprintf(" winc %d binc 0 movestogo %d", []int{1000, 100000}[r.Intn(2)], []int{1, 5}[r.Intn(2)])
+			}
+			line := fmt.Sprintf("published uci-monitor clock-through-uci ; uci plain 0 ; slow 200 ;; > position startpos ;; > %s ;; wait-bestmove %d ;; sync", g, left)
+			o.do(line)
+			o.Count("uci-clock")
+			o.Nontrivial(line)
+		}
 		// the side to move is being mated, and the quiescence leaves see the mate beyond the depth (score M-k with k > depth)
 		for i := 0; i < k/8+3; i++ {
 			if f, ok := matedBeyondDepth(r); ok {
